@@ -1,5 +1,8 @@
 import SamplyModel.Lemmas.ConvStacks
 import SamplyModel.Lemmas.ConvJit
+import SamplyModel.Lemmas.ConvHistFinal
+import SamplyModel.Lemmas.ConvElide
+import SamplyModel.Lemmas.ConvOrdered
 import SamplyModel.Model.SvmaBias
 /-!
 # C02 — frames are attributed to the library mapped at that address at sample time
@@ -16,8 +19,11 @@ addresses inside the fake library) form the last level of the mapping hierarchy 
 a perf-map function covering the same address (`ConvSpec.resolveH`) — and every frame of a function classified
 as JS is preceded by a label frame carrying the JS name (`ConvSpec.expandJs`).
 
-The theorems quantify over every queue (sorted by timestamp — discharged for converter histories below),
-every buffer of samples in nondecreasing time order, every address and every stack.
+The component theorems quantify over every queue (sorted by timestamp), every buffer of samples in nondecreasing
+time order, every address and every stack. **`C02_history`** (end of the first part) is the end-to-end statement:
+for every history inside the stated hypotheses the stacks of `views (run cfg rs)` are the judged specification
+`expectedSamples cfg rs`; `C02_run_sorted`, `C02_queue_is_announced` and `C02_fork_inherits_run` discharge the
+hypotheses of the component theorems (`SortedQ`, `Pairwise tmono`, `hkey`) for converter runs.
 -/
 open Conv ConvSpec
 
@@ -228,6 +234,118 @@ theorem C02_queue_push_sorted (q : List (Nat × MapAdd)) (t : Nat) (m : MapAdd) 
   subst hb
   exact hle a ha
 
+/-! ## Histories
+
+The hypotheses of `C02_history` (all decidable on the configuration and the bare record list):
+
+* `cfg.reuse = false` — default options (the judge answers not-applicable otherwise);
+* `Life.grammarOk cfg.ref rs` — the FORK / EXEC clauses of the record grammar (the predicate of `judgeC17`). What
+  the proof uses of it is "no FORK onto a live pid" (known finding C02-fork-onto-live-pid: the judge tags failures
+  of pids in `Life.forkOntoLive`, which is empty inside `grammarOk`: `C02_grammar_no_fork_onto_live`) and "EXEC on
+  main threads only";
+* `hasCsRec rs = false` — no context-switch records / `sched_switch` samples (the C02 generator writes none; with
+  them synthesized off-CPU samples, stamped with the begin of the sleep, enter the buffers);
+* `noSpecial rs` — no executable MMAP2 record names `//anon`, `[heap]`, `[stack]`, `[vvar]` (known finding
+  C02-special-path-not-evicting; the judge's tag compares with `ExpSample.legacySp`, which coincides with the
+  statement's reading exactly here: `C02_noSpecial_legacySp`);
+* `queuedOrdered rs` — MMAP2 and SAMPLE records are delivered in time order (known finding C02-backdated-record;
+  the `layout` families are the excluded points; the judge's tag compares with `ExpSample.legacyQ`, which
+  coincides with the statement's reading here: `C02_ordered_legacyQ`);
+* every perf-map file loads without arithmetic panic (`C02_perf_map_load_safe_iff`; the driver prints `panic`
+  otherwise).
+
+Not needed: anything about C02-mmap-arith-panic (`recSafe`): the statement is about `views`, the panic outcome of
+the model is the separate flag `perfMapsSafe` / `recSafe` of the driver. -/
+
+/-- **History-level attribution.** For every configuration with default options and every record history inside
+the hypotheses above, the recorded samples of the output — keyed by the pid / tid their entry carries and their
+profile time — have exactly the stacks of the judged specification `expectedSamples cfg rs` (per-pid announcement
+lists inherited at FORK, dropped at EXIT / EXEC of the main thread, same-timestamp look-ahead, regular mappings
+before perf-map functions, JS label expansion), passed through the depth limiter with the recorded stack length as
+hint. As multisets: nothing is lost, nothing invented. -/
+theorem C02_history (cfg : Config) (rs : List Rec) (hr : cfg.reuse = false)
+    (hg : Life.grammarOk cfg.ref rs = true) (hcs : hasCsRec rs = false) (hsp : noSpecial rs = true)
+    (hord : queuedOrdered rs = true) (hpm : ∀ pid, (loadPerfMap cfg pid).isSome = true) :
+    List.Perm
+      ((views (run cfg rs)).flatMap (fun v => (v.samples.filter (fun o => !o.synth)).map
+        (fun o => (v.pidBase, v.tidBase, o.t, o.frames))))
+      ((expectedSamples cfg rs).map
+        (fun e => (e.pid, e.tid, e.t - cfg.ref, depthLimit depthN e.frames e.nrec))) :=
+  history_views cfg rs hr hg hcs hsp hord hpm
+
+/-- Below the depth limit (every recorded stack shorter than 500 frames — what `judgeC02` compares literally) the
+output stacks **are** `expectedStacks cfg rs`. -/
+theorem C02_history_stacks (cfg : Config) (rs : List Rec) (hr : cfg.reuse = false)
+    (hg : Life.grammarOk cfg.ref rs = true) (hcs : hasCsRec rs = false) (hsp : noSpecial rs = true)
+    (hord : queuedOrdered rs = true) (hpm : ∀ pid, (loadPerfMap cfg pid).isSome = true)
+    (hshallow : ∀ e ∈ expectedSamples cfg rs, e.nrec < 500) :
+    List.Perm
+      ((views (run cfg rs)).flatMap (fun v => (v.samples.filter (fun o => !o.synth)).map
+        (fun o => (v.pidBase, v.tidBase, o.t, o.frames))))
+      ((expectedStacks cfg rs).map (fun x => (x.1, x.2.1, x.2.2.1 - cfg.ref, x.2.2.2))) := by
+  refine (C02_history cfg rs hr hg hcs hsp hord hpm).trans (List.Perm.of_eq ?_)
+  unfold expectedStacks
+  rw [List.map_map]
+  apply List.map_congr_left
+  intro e he
+  have hn := hshallow e he
+  have : depthLimit depthN e.frames e.nrec = e.frames := by
+    unfold depthLimit shouldElide depthN
+    have : ¬ e.nrec ≥ 200 + 200 + 200 / 2 := by omega
+    simp only [this, if_false]
+  simp only [Function.comp, this]
+
+/-- Link (a) of the review: the pending mapping queue of the process bound to a pid is the specification's
+announcement list `annStep` for that pid (an unbound pid has the empty list). -/
+theorem C02_queue_is_announced (cfg : Config) (rs : List Rec) (hr : cfg.reuse = false)
+    (hg : Life.grammarOk cfg.ref rs = true) (hcs : hasCsRec rs = false) (hsp : noSpecial rs = true)
+    (hord : queuedOrdered rs = true) (pid : Nat) :
+    ((alGet (run cfg rs).procs pid).map (·.mapq)).getD [] = (alGet (rs.foldl (annStep cfg) []) pid).getD [] := by
+  obtain ⟨h, _, _⟩ := hist_run cfg rs hr hg hcs hsp hord
+  rw [← pobs_mapq]
+  exact h.q pid
+
+/-- Link (b): under time-ordered delivery every buffer the final flush sees — parked or live — has a queue sorted
+by timestamp and samples in nondecreasing raw time: the hypotheses of `C02_cutoff` / `C02_flush` hold for
+converter runs. -/
+theorem C02_run_sorted (cfg : Config) (rs : List Rec) (hr : cfg.reuse = false)
+    (hg : Life.grammarOk cfg.ref rs = true) (hcs : hasCsRec rs = false) (hsp : noSpecial rs = true)
+    (hord : queuedOrdered rs = true) :
+    ∀ b ∈ allBuffers (run cfg rs), SortedQ b.2.1 ∧ b.1.Pairwise (fun a b => a.tmono ≤ b.tmono) := by
+  obtain ⟨h, ⟨T, hs⟩, _⟩ := hist_run cfg rs hr hg hcs hsp hord
+  exact allBuffers_sorted h.inv hs
+
+/-- Link (c): `C02_fork_inherits` for every reachable state — its hypothesis `hkey` is part of the state
+invariant (`C01_state_valid`). -/
+theorem C02_fork_inherits_run (cfg : Config) (rs : List Rec) (pid tid ppid ptid t : Nat) (h : pid ≠ ppid) :
+    ((alGet (step (run cfg rs) (.fork pid tid ppid ptid t)).procs pid).map (·.mapq)) =
+      some (getByPid (run cfg rs) ppid).2.mapq := by
+  refine C02_fork_inherits (run cfg rs) pid tid ppid ptid t h ?_
+  intro p hp
+  obtain ⟨g1, _⟩ := getByPid_spec (run_sim cfg rs).inv (show getByPid (run cfg rs) ppid = (_, _) from rfl)
+  exact (g1.inv.get hp).1
+
+/-- Inside `grammarOk` no FORK names a live pid: the `[fork-onto-live-pid]` tag of the judge is never attached
+to a history `C02_history` speaks about. -/
+theorem C02_grammar_no_fork_onto_live (cfg : Config) (rs : List Rec) (hg : Life.grammarOk cfg.ref rs = true) :
+    Life.forkOntoLive cfg.ref rs = [] :=
+  forkOntoLive_of_grammar cfg.ref rs hg
+
+/-- Without special-path records the spec-side reading of samply's present mechanism for them (`legacySp`) *is* the
+statement's reading: the judge's `[special-path-not-evicting]` tag (attached only when the output equals a
+`legacySp` that differs from `frames`) is never attached to a history `C02_history` speaks about. -/
+theorem C02_noSpecial_legacySp (cfg : Config) (rs : List Rec) (h : noSpecial rs = true) :
+    ∀ e ∈ expectedSamples cfg rs, e.legacySp = e.frames :=
+  expectedSamples_go_legacySp cfg rs h [] [] []
+
+/-- Inside `noSpecial` and `queuedOrdered` the spec-side reading of samply's present queue mechanism (`legacyQ`:
+queue *prefix* against the running maximum of the buffer's sample times) is the statement's reading (cut-off by
+timestamp): the judge's `[backdated-record]` tag (attached only when the output equals a `legacyQ` that differs from
+`frames`) is never attached to a history `C02_history` speaks about. -/
+theorem C02_ordered_legacyQ (cfg : Config) (rs : List Rec) (h1 : noSpecial rs = true)
+    (h2 : queuedOrdered rs = true) : ∀ e ∈ expectedSamples cfg rs, e.legacyQ = e.frames :=
+  expectedSamples_legacyQ cfg rs h1 h2
+
 /-! ### Non-vacuity: nested, replaced and adjacent mappings -/
 def C02_exQ : List (Nat × MapAdd) :=
   [(10, ⟨0x1000, 0x5000, 0, "a", none⟩), (20, ⟨0x2000, 0x3000, 0x100, "b", none⟩), (30, ⟨0x5000, 0x6000, 0, "c", none⟩)]
@@ -366,3 +484,27 @@ example : SvmaBias.computeBias C02_jsSegments 0x14bd0c0 0x100014be0c0 0xf5bf60 =
 example : SvmaBias.computeBias C02_jsSegments 0x14bd000 0x55d605384000 0xf5d000 = .ok 0x55d603ec6000 := by decide
 example : SvmaBias.relStart ⟨0, [⟨0, 0, 0x2000⟩, ⟨0x3000, 0x2000, 0x3000⟩]⟩ 0x2000 0x7f0000003000 0x3000 = .ok 0x3000 := by
   decide
+
+/-! ### Non-vacuity of `C02_history`: a history with fork inheritance, a same-timestamp mapping that arrives after
+the sample, an exec that drops the mappings, and a perf map -/
+def C02_exCfg : Config := { ref := 1000, perfMaps := [(100, ["5000 10 py::f".toList])] }
+
+def C02_exHistory : List Rec :=
+  [.comm 100 100 "app" false 1000,
+   .mmap2 100 100 0x400000 0x2000 0 true "libfoo.so" 1100,
+   .fork 200 200 100 100 1200,
+   .sample 200 200 1300 false 1 0x400100 [CTX_USER, 0x400100, 0x401000, 0x5001],
+   .mmap2 200 200 0x600000 0x1000 0 true "libbar.so" 1300,
+   .sample 200 200 1400 false 1 0x600010 [],
+   .comm 200 200 "other" true 1500,
+   .sample 200 200 1600 false 1 0x400100 [],
+   .sample 100 100 1700 false 1 0x5002 []]
+
+example : Life.grammarOk C02_exCfg.ref C02_exHistory = true ∧ hasCsRec C02_exHistory = false ∧
+    noSpecial C02_exHistory = true ∧ queuedOrdered C02_exHistory = true ∧
+    (loadPerfMap C02_exCfg 100).isSome = true := by decide
+example : (expectedStacks C02_exCfg C02_exHistory).map (fun x => (x.1, x.2.2.1, x.2.2.2)) =
+    [(200, 1300, [.raw 0x5000, .lib "libfoo.so" 0xfff, .lib "libfoo.so" 0x100]),
+     (200, 1400, [.lib "libbar.so" 0x10]),
+     (200, 1600, [.raw 0x400100]),
+     (100, 1700, [.label "f", .lib "/tmp/perf-100.map" 2])] := by decide
